@@ -39,6 +39,8 @@ func profile() *vtx.Profile {
 			e := []vtx.Event{
 				ev("perm", "c1", 0, "A"), ev("perm", "c1", 0, "B"), ev("perm", "c1", 0, "A", "B"),
 				ev("perm", "c1", 0, "A", "V6"),
+				// another port of an already permitted host: permissions are per IP, so these refresh A's
+				ev("perm", "c1", 0, "A2"), ev("chan", "c1", 0x4001, "A2"),
 				ev("chan", "c1", 0x4000, "A"), ev("chan", "c1", 0x4001, "B"),
 				ev("chan", "c1", 0x4000, "B"), ev("chan", "c1", 0x4001, "A"),
 			}
